@@ -17,7 +17,7 @@ CFG = dict(
                "(share quality = result of real BLS verification; mocks of beacon node, network and key manager), the threshold-BLS assumption "
                "(reconstruction over the stored shares succeeds iff all are correct and >= threshold), SSZ codecs. The beacon node mock accepts every submission.",
     technique="Lean 4 proof (trace invariants by induction over message lists; refutation by a decided concrete witness) + regenerated call-site facts "
-              "and translated quorum kernel + differential run against the real runners with real BLS + implementation-side oracle with real signature verification",
+              "and translated quorum kernel + differential run against the real runners with real BLS + implementation-side oracle with real signature verification + probe arbids: 60 quick / 400 thorough committees split at arbitrary operator ids on the real voluntary-exit runner (oracle only)",
     lean=["Ssv.Props.C05"],
     engines=[dict(harness="partialsig", driver="m_partialsig", case_delim="reset", n_quick=300, n_thorough=4000, thorough_seeds=4, n_search=1500, search_seeds=3)],
     rule="committee sizes 4/7/10/13 (spec test key sets = real threshold shares); all 8 runner flavours; per case a fresh REAL runner is driven through "
@@ -29,7 +29,7 @@ CFG = dict(
          "shows; every Submit* signature is verified over EXACTLY the object handed to the beacon mock and that object must belong to the current duty; "
          "an implementation-side probe runs the voluntary-exit runner with a failing own broadcast. Systematic block: n=4, one faulty member, EVERY arrival order "
          "(5! orders x 6 duty/bad-root configurations). A case class is distinct per (runner, n, outcome, share-quality class, #entries).",
-    trusted_base=["the correspondence run only uses committees whose operator ids are 1..n (key sets of the spec test kit): code that confuses an operator id with a committee position is NOT distinguished by it (campaign V, V-m03: missed); the Lean model itself is general (signer ∈ committee)",
+    trusted_base=["the model-diffed correspondence run uses committees whose operator ids are 1..n (key sets of the spec test kit); committees split at ARBITRARY operator ids are covered by the oracle-only probe `arbids` on the real voluntary-exit runner (membership, liveness, signature), not by the model diff (campaign V, V-m03)",
                   "threshold BLS: Lagrange recovery over the stored shares followed by verification under the validator key succeeds iff every stored share "
                   "is correct and there are at least Share.Quorum of them (exercised with real BLS by the differential run; cancelling wrong shares are not generated)",
                   "partial signatures are 96 bytes (SSZ decoding guarantees it before the runner sees them)",
